@@ -5,11 +5,12 @@ set -u
 MUT="$1"; PROP="$2"; TIER="${3:-quick}"
 export GOFLAGS=-mod=mod GOPROXY=off GOSUMDB=off GOTOOLCHAIN=local
 W=/tmp/seedchk_$PROP
+if [ "${PHASE:-all}" != "check" ]; then
 git -C /repo worktree remove --force $W 2>/dev/null
 git -C /repo worktree add --detach $W HEAD -q || exit 2
 cd $W
 DEMO=$(python3 -c "import json;m=json.load(open('$MUT/meta.json'));print(m.get('demo_file','').split('/')[-1])")
-DDIR=$(python3 -c "import json;m=json.load(open('$MUT/meta.json'));print(m.get('demo_package_dir','').replace('/tmp/mut/$PROP/',''))")
+DDIR=$(python3 -c "import json;m=json.load(open('$MUT/meta.json'));print(m.get('demo_package_dir','').replace('/tmp/mut/$PROP/','').replace('/tmp/mut2/$PROP/',''))")
 [ -f "$MUT/$DEMO" ] || DEMO=$(ls $MUT | grep _test.go | head -1)
 echo "demo=$DEMO dir=$DDIR"
 cp "$MUT/$DEMO" "$W/$DDIR/$DEMO"
@@ -24,6 +25,8 @@ mv /tmp/$DEMO.$PROP "$W/$DDIR/$DEMO"
 echo "--- demo with the change (must fail)"
 go test -vet=off -count=1 ./$DDIR/ 2>&1 | tail -4
 cd /; git -C /repo worktree remove --force $W
+fi
+[ "${PHASE:-all}" = "confirm" ] && exit 0
 echo "--- our check against the change"
 git -C /repo apply "$MUT/patch.diff" || { echo "cannot apply to /repo"; exit 2; }
 cd /verif && ./check $PROP --tier $TIER > /tmp/trymut_$PROP.out 2> /tmp/trymut_$PROP.err; rc=$?
